@@ -402,7 +402,7 @@ def _seq_sampled(case):
     import hashlib
     if case.get("seq"):
         return True
-    return int(hashlib.md5(case.get("name", "").encode()).hexdigest(), 16) % 8 == 0
+    return int(hashlib.md5(case.get("name", "").encode()).hexdigest(), 16) % 16 == 0
 
 
 def _seq_numberings(case):
@@ -416,13 +416,13 @@ def _seq_numberings(case):
     rng = random.Random(int(hashlib.md5(("seq:" + case.get("name", "")).encode()).hexdigest(), 16) % (1 << 32))
     nums = Gn.map_numbers(base["rsmi"])
     import re
-    for _ in range(4):
+    for _ in range(3):
         if len(nums) >= 2:
             a, b = rng.sample(nums, 2)
             sig = {a: b, b: a}
             rs.append(re.sub(r":(\d+)\]", lambda mo: ":%d]" % sig.get(int(mo.group(1)), int(mo.group(1))), base["rsmi"]))
-    for _ in range(2):
-        r = Gn.permute_maps(base["rsmi"], rng, "random")
+    for how in ("random", "offset"):
+        r = Gn.permute_maps(base["rsmi"], rng, how)
         if r:
             rs.append(r[0])
     out = []
@@ -433,30 +433,35 @@ def _seq_numberings(case):
 
 
 def _sequence_failures(case, obs, fail):
-    """the template under several numberings, applied one after the other to the base substrate in ONE fresh interpreter,
-    in both orders (first application = fresh caches; later ones share whatever the earlier ones left behind): every
-    application must give the base writing's set of reactions, per strategy"""
+    """histories (harness/gen/c05_hist.py): every (writing, strategy) of the case — decorated with the different input forms
+    (SMILES / graph / SynGraph / SynRule / shared objects / from_smiles), result-neutral options, repeated reads of every
+    lazily computed attribute, one in-place renumbering of a shared template object, steps that empty what they were given
+    back, and for designated rules further numberings — applied one after the other in ONE fresh interpreter, in forward and
+    in reverse order.  Every step must give the base writing's set of reactions for its strategy."""
     if not _seq_sampled(case):
         return
-    rs = _seq_numberings(case)
-    if len(rs) < 2:
-        return
-    strategies = case["strategies"]
-    sub = case["variants"][0]["sub"]
-    apps = [dict(sub=sub, rsmi=r) for r in rs]
-    fwd = _fresh_sequence(case, apps + apps[:1], strategies)
-    rev = _fresh_sequence(case, apps[::-1] + apps[-1:], strategies)
-    for st in strategies:
-        here = obs[(0, st)]
-        want = None if here["err"] else sorted(here["std"])
-        for label, seq, answers in (("forward", apps + apps[:1], fwd), ("reverse", apps[::-1] + apps[-1:], rev)):
-            for k, (a, got) in enumerate(zip(seq, answers)):
-                if got[st] != want:
-                    fail("invariant-sequence", "strategy %s, substrate %s: application %d of the %s sequence (template numbering %s) gives %s reactions, "
-                         "the base numbering alone gives %s; sequence applied in one fresh interpreter: %r"
-                         % (st, sub, k + 1, label, a["rsmi"], None if got[st] is None else len(got[st]), None if want is None else len(want),
-                            [x["rsmi"] for x in seq]))
-                    return
+    from ..gen import c05_hist as H
+    extra = _seq_numberings(case)[1 + sum(1 for v in case["variants"][1:] if v["v"].startswith("tpl")):] if case.get("seq") else []
+    steps = H.steps_of(case, extra)
+    fwd = H.fresh(H.spec_of(case, steps + steps[:1]))
+    rev = H.fresh(H.spec_of(case, steps[::-1] + steps[-1:]))
+    for label, seq, answers in (("forward", steps + steps[:1], fwd), ("reverse", steps[::-1] + steps[-1:], rev)):
+        for k, (st, ans) in enumerate(zip(seq, answers)):
+            here = obs[(0, st["key"])]
+            want = None if here["err"] else sorted(here["std"])
+            what = "step %d of the %s history (substrate %s as %s, template %s as %s, strategy %s%s%s%s)" % (
+                k + 1, label, st["sub"], st.get("sub_form", "smiles"), st["rsmi"], st.get("tpl_form", "graph"), st["strategy"],
+                " enum" if st.get("enum") else "", " options %r" % st["opts"] if st.get("opts") else "",
+                " after renumbering the shared template object in place" if st.get("relabel") else "")
+            if ans["std"] != want:
+                fail("invariant-sequence", "%s gives %s reactions, the base writing alone gives %s; history run in one fresh interpreter: %r"
+                     % (what, None if ans["std"] is None else (ans["std"][:1] if ans["std"] and ans["std"][0].startswith("EXC") else len(ans["std"])),
+                        None if want is None else len(want),
+                        [(x["sub"], x["rsmi"], x["strategy"], x.get("tpl_form", "graph"), x.get("sub_form", "smiles")) for x in seq[:k + 1]][-6:]))
+                return
+            if not ans["reads_ok"]:
+                fail("repeat", "%s: a second read of smarts_list / smarts / its / mapping_count / smiles_list disagrees with the first" % what)
+                return
 
 
 def oracle(case):
@@ -494,9 +499,8 @@ def oracle(case):
     for i, v in enumerate(case["variants"]):
         if i == 0:
             continue
-        # premise monitor (RDKit): a rewriting that does not parse to an isomorphic graph is not a rewriting
-        if v["sub"] != base["sub"] and not _host_iso(hostb, obs[(i, strategies[0])]["rec"].host):
-            continue
+        # (the generator only emits rewritings that RDKit itself reads back as the same molecule; the parse through
+        #  smiles_to_graph is part of what is being checked, so nothing is skipped here)
         kind = "rewriting" if v["v"].startswith("sub") else ("map-permutation" if v["v"].startswith("tpl") else "rewriting+map-permutation")
         for st in strategies:
             a, b = obs[(0, st)], obs[(i, st)]
